@@ -55,6 +55,25 @@ pub fn execute(ctx: &mut Ctx, lines: &[String]) -> Vec<String> {
                 }
                 hex(&got)
             }
+            ["RECURSE", mode, target] => {
+                let (finished, data) = crate::props::robust::run_recurse(&ctx.work, mode, target, 4);
+                ctx.report.count(&format!("recurse.{}.{target}", mode.split(':').next().unwrap()));
+                ctx.report.nontrivial_case(lines);
+                if !finished {
+                    // reproduce once with a doubled bound before calling it a hang
+                    let (again, _) = crate::props::robust::run_recurse(&ctx.work, mode, target, 8);
+                    if !again {
+                        ctx.report.fail(&case_id, &format!("recursion-hangs-{mode}-{target}"), &format!("line {li}: a log call from within Display (mode {mode}, output {target}) did not return within 8 s (twice)"));
+                        out.push("hang".into());
+                        continue;
+                    }
+                }
+                let want = b"inner1\nouter x1\nplain\n";
+                if finished && data != want {
+                    ctx.report.fail(&case_id, "recursion-output", &format!("line {li}: recursive logging (mode {mode}, output {target}) produced {:?}", String::from_utf8_lossy(&data)));
+                }
+                hex(&data)
+            }
             _ => format!("bad-op {line}"),
         };
         out.push(ans);
